@@ -1,1 +1,250 @@
-def main : IO Unit := IO.println "driver C19: not built yet"
+import VncModel.Basic.Proto
+import VncModel.FileXfer.Model
+/-! Line-protocol driver for the file-transfer model (C19).  Same script as harness/c19.c plus
+`env` lines carrying the results of the libc calls (taken from the harness run). -/
+open VncModel VncModel.FileXfer VncModel.Proto
+
+def sandbox : Bytes := ofStr "/tmp/verif-c19-0000000"
+
+structure Conn where
+  id : Nat
+  cl : Client
+  peerOpen : Bool := true
+  reaped : Bool := false
+
+structure W where
+  permit : Bool := false
+  cbSeq : Option (List Nat) := none
+  home : Option Path := some sandbox
+  tightReg : Bool := false
+  tightEn : Bool := true
+  calls : Nat := 0
+  nextFd : Nat := 0
+  conns : List Conn := []
+  env : List String := []
+
+def W.cfg (w : W) : Cfg :=
+  { permit := w.permit
+    cb := w.cbSeq.map fun l => fun i => if i < l.length then l.getD i 0 else l.getLastD 0
+    home := w.home
+    tightEn := w.tightEn
+    root := sandbox ++ ofStr "/root" }
+
+def findConn (w : W) (id : Nat) : Option Conn := w.conns.find? (·.id == id)
+
+def putConn (w : W) (c : Conn) : W :=
+  { w with conns := w.conns.map fun d => if d.id == c.id then c else d }
+
+def insertConn (c : Conn) : List Conn → List Conn
+  | [] => [c]
+  | d :: ds => if c.id ≤ d.id then c :: d :: ds else d :: insertConn c ds
+
+def cid? (t : String) : Option Nat :=
+  if t.startsWith "c" then
+    match (t.drop 1).toString.toNat? with
+    | some n => if n < 16 then some n else none
+    | none => none
+  else none
+
+/-! printing -/
+
+def modeStr : Mode → String | .rd => "rd" | .wrct => "wr+ct"
+
+def fsLine (e : FsEffect) (res : String) : String :=
+  match e with
+  | .open p m => s!"fs open {pct p} {modeStr m} -> {res}"
+  | .fstat fd => s!"fs fstat #{fd} -> {res}"
+  | .read fd => s!"fs read #{fd} -> {res}"
+  | .write fd n h => s!"fs write #{fd} {n}:{h} -> {res}"
+  | .close fd => s!"fs close #{fd}"
+  | .opendir p => s!"fs opendir {pct p} -> {res}"
+  | .closedir => "fs closedir"
+  | .stat p => s!"fs stat {pct p} -> {res}"
+  | .mkdir p => s!"fs mkdir {pct p} -> {res}"
+  | .unlink p => s!"fs unlink {pct p} -> {res}"
+  | .rmdir p => s!"fs rmdir {pct p} -> {res}"
+  | .rename a b => s!"fs rename {pct a} {pct b} -> {res}"
+  | .utime p => s!"fs utime {pct p} -> {res}"
+
+def payloadStr (len : Nat) : Payload → String
+  | .raw b => if len ≤ 600 then pct b else s!"fnv:{fnvStr b}"
+  | .hdr name => s!"{pct (name ++ 44 :: List.replicate 16 84)} +h0"
+  | .entry attr size name =>
+    s!"E {attr} {size} {pct (name ++ List.replicate (Gen.C19.findDataFixed - Gen.C19.findDataNameOff) 0)}"
+  | .digest _ h => s!"fnv:{h}"
+  | .zdigest n h => s!"zfnv:{n}:{h}"
+
+def wireLine : Wire → String
+  | .ft ct cp size len pl => s!"w {ct} {cp} {size} {len} {payloadStr len pl}"
+  | .tlist flags ents =>
+    let ds := (ents.foldl (fun a e => a + e.2.length + 1) 0) % 65536
+    let names := ents.foldl (fun a e => a ++ s!" {e.1}:{pct e.2}") ""
+    s!"tw 130 {flags} {ents.length % 65536} {ds} {ds}{names}"
+  | .tdata n h => s!"tw 131 0 {n} {n} fnv:{h}"
+  | .tdataEnd => "tw 131 0 0 0 mtime"
+  | .tcancel r => s!"tw 132 {pct (ofStr r)}"
+  | .tfailed r => s!"tw 133 {pct (ofStr r)} +0"
+
+/-- events oldest first -> lines: calls in order, then wire messages -/
+def evLines (evs : List Ev) : List String :=
+  let a := evs.filterMap fun
+    | .q n => some s!"q {n}"
+    | .fs e r => some (fsLine e r)
+    | .cleanup e r => some (fsLine e r)
+    | .x what n r => some s!"x {what} {n} -> {r}"
+    | .envBad what => some s!"env-mismatch {what}"
+    | _ => none
+  let b := evs.filterMap fun
+    | .wire w => some (wireLine w)
+    | _ => none
+  a ++ b
+
+def fdStr : Option Nat → String | some k => s!"#{k}" | none => "-"
+def b01 (b : Bool) : String := if b then "1" else "0"
+
+def statusLine (c : Conn) : String :=
+  if c.reaped then s!"= c{c.id} gone" else
+  let cl := c.cl
+  let t := if !cl.tightExt then "-" else
+    match cl.tight with
+    | none => "freed"
+    | some t => s!"up:{fdStr t.up.fd}/{b01 t.up.inProgress},dn:{fdStr t.dn.fd}/{b01 t.dn.inProgress}"
+  s!"= c{c.id} {if cl.isOpen then "open" else "closed"} fd={fdStr cl.xf.fd} s={b01 cl.xf.sending} r={b01 cl.xf.receiving} z={b01 cl.xf.compression} t={t}"
+
+/-- run one model entry point on a connection -/
+def runOn (w : W) (c : Conn) (f : S → S) : W × Conn × List Ev :=
+  let s : S := { cl := c.cl, calls := w.calls, env := w.env, nextFd := w.nextFd, evs := [] }
+  let s := f s
+  let c := { c with cl := s.cl }
+  ({ putConn w c with calls := s.calls, env := s.env, nextFd := s.nextFd }, c, s.evs.reverse)
+
+/-- process messages while input is pending (harness `process`) -/
+def pump (fuel : Nat) (w : W) (id : Nat) (acc : List String) : W × List String :=
+  match fuel with
+  | 0 => (w, acc)
+  | fuel + 1 =>
+    match findConn w id with
+    | none => (w, acc)
+    | some c =>
+      if !c.cl.isOpen ∨ c.cl.inbuf.isEmpty then (w, acc)
+      else
+        let (w, c, evs) := runOn w c (stepMsg w.cfg)
+        match evs.find? (fun e => match e with | .nonft _ => true | _ => false) with
+        | some (.nonft b) => (w, acc ++ [s!"nonft {b}"])
+        | _ => pump fuel w id (acc ++ evLines evs ++ [statusLine c])
+
+def natArg? (pre : String) (t : String) : Option String :=
+  if t.startsWith pre then some (t.drop pre.length).toString else none
+
+def be32b (n : Nat) : Bytes :=
+  [UInt8.ofNat (n / 16777216 % 256), UInt8.ofNat (n / 65536 % 256), UInt8.ofNat (n / 256 % 256), UInt8.ofNat (n % 256)]
+
+def doSend (w : W) (id : Nat) (bytes : Bytes) : W × List String :=
+  match findConn w id with
+  | none => (w, ["bad-op", "."])
+  | some c =>
+    if c.reaped ∨ !c.cl.isOpen ∨ !c.peerOpen then (w, ["dead", "."])
+    else
+      let c := { c with cl := { c.cl with inbuf := c.cl.inbuf ++ bytes } }
+      let w := putConn w c
+      let (w, ls) := pump (c.cl.inbuf.length + 2) w id []
+      (w, ls ++ ["."])
+
+def dstep (w : W) (toks : List String) : W × List String :=
+  match toks with
+  | "env" :: rest =>
+    let joined := " ".intercalate rest
+    ({ w with env := if joined.isEmpty then [] else joined.splitOn "|" }, [])
+  | ["cfg", p, c] =>
+    match natArg? "permit=" p, natArg? "cb=" c with
+    | some pv, some cv =>
+      let permit := pv.startsWith "1"
+      if cv = "none" then ({ w with permit := permit, cbSeq := none }, ["."])
+      else
+        let ds := cv.toList.map fun ch => ch.toNat - 48
+        if ds.isEmpty then ({ w with permit := permit, cbSeq := none }, ["."])
+        else ({ w with permit := permit, cbSeq := some ds, calls := 0 }, ["."])
+    | _, _ => (w, ["bad-op", "."])
+  | ["home", k] =>
+    match parseInt? k with
+    | some k =>
+      if k < 0 then ({ w with home := none }, ["."])
+      else if k = 0 then ({ w with home := some sandbox }, ["."])
+      else ({ w with home := some (sandbox ++ 47 :: List.replicate (min k.toNat 250) 104) }, ["."])
+    | none => (w, ["bad-op", "."])
+  | ["tight", r, e] =>
+    match natArg? "reg=" r, natArg? "en=" e with
+    | some rv, some ev =>
+      ({ w with tightReg := (rv.toNat?.getD 0) != 0, tightEn := (ev.toNat?.getD 0) != 0 }, ["."])
+    | _, _ => (w, ["bad-op", "."])
+  | "conn" :: idt :: opts =>
+    match cid? idt with
+    | some id =>
+      if (findConn w id).isSome ∨ opts.length > 2 then (w, ["bad-op", "."])
+      else
+        let vo := opts.contains "viewonly"
+        let tg := opts.contains "tight"
+        if tg ∧ !w.tightReg then
+          -- security type 16 is not offered: "wrong security type", connection closed in handshake
+          let c : Conn := { id := id, cl := { isOpen := false, viewOnly := vo } }
+          ({ w with conns := insertConn c w.conns }, [s!"= c{id} closed hs", "."])
+        else
+          let c : Conn := { id := id, cl := { viewOnly := vo, tightExt := tg, tight := if tg then some {} else none } }
+          ({ w with conns := insertConn c w.conns }, [s!"= c{id} open normal", "."])
+    | none => (w, ["bad-op", "."])
+  | ["view", idt, v] =>
+    match cid? idt with
+    | some id =>
+      match findConn w id with
+      | some c =>
+        if c.reaped then (w, ["bad-op", "."])
+        else (putConn w { c with cl := { c.cl with viewOnly := (v.toNat?.getD 0) != 0 } }, ["."])
+      | none => (w, ["bad-op", "."])
+    | none => (w, ["bad-op", "."])
+  | ["send", idt, hx] =>
+    match cid? idt, unhex? hx with
+    | some id, some bytes => doSend w id bytes
+    | _, _ => (w, ["bad-op", "."])
+  | ["ft", idt, ct, cp, size, len, hx] =>
+    match cid? idt, ct.toNat?, cp.toNat?, size.toNat?, len.toNat?, unhex? hx with
+    | some id, some ct, some cp, some size, some len, some bytes =>
+      doSend w id ([7, UInt8.ofNat ct, UInt8.ofNat cp, 0] ++ be32b size ++ be32b len ++ bytes)
+    | _, _, _, _, _, _ => (w, ["bad-op", "."])
+  | ["chunk", idt] =>
+    match (cid? idt).bind (findConn w) with
+    | some c =>
+      if c.reaped then (w, ["dead", "."])
+      else
+        let s : S := { cl := c.cl, calls := w.calls, env := w.env, nextFd := w.nextFd, evs := [] }
+        let (r, s) := chunkEntry w.cfg s
+        let c := { c with cl := s.cl }
+        let w := { putConn w c with calls := s.calls, env := s.env, nextFd := s.nextFd }
+        (w, evLines s.evs.reverse ++ [s!"ret {b01 r}", statusLine c, "."])
+    | none => (w, ["dead", "."])
+  | ["gone", idt] =>
+    match (cid? idt).bind (findConn w) with
+    | some c =>
+      if c.reaped ∨ !c.peerOpen then (w, ["dead", "."])
+      else
+        let c := { c with peerOpen := false }
+        let w := putConn w c
+        if c.cl.isOpen then
+          let (w, c, evs) := runOn w c peerGone
+          (w, evLines evs ++ [statusLine c, "."])
+        else (w, [statusLine c, "."])
+    | none => (w, ["dead", "."])
+  | ["reap"] =>
+    let (w, ls) := w.conns.foldl (fun (acc : W × List String) c =>
+      let (w, ls) := acc
+      if c.reaped ∨ c.cl.isOpen then (w, ls)
+      else
+        let (w, c, evs) := runOn w c reapClient
+        (putConn w { c with reaped := true }, ls ++ evLines evs ++ [s!"reaped c{c.id}"])) (w, [])
+    (w, ls ++ ["."])
+  | ["fds"] =>
+    let all := w.conns.flatMap fun c => if c.reaped then [] else c.cl.fds.map fun k => (k, c.id)
+    let sorted := (List.range (w.nextFd + 1)).flatMap fun k => all.filter (·.1 == k)
+    (w, ["fds" ++ sorted.foldl (fun a e => a ++ s!" #{e.1}@c{e.2}") "", "."])
+  | _ => (w, ["bad-op", "."])
+
+def main : IO Unit := runDriver ({} : W) dstep
